@@ -786,3 +786,71 @@ mut("C13", "events_not_dropped_on_connect", "events emitted before connecting ar
         let queue = queues""", """    let _ = &mut events;
     for event in event_registry.iter_all_server() {
         let queue = queues"""))
+
+# ------------------------------------------------------------------ C03
+UPDS = "src/server/replication_messages/updates.rs"
+mut("C03", "reintroduce_d9_unmarked_reserved_entity", "Occupied branch of apply_changes no longer ensures the marker", ["ensures-marker-on-every-path"],
+    ("src/client.rs", """            if !client_entity.contains::<Replicated>() {
+                // The entity could be reserved earlier by a mapped component that referenced it.
+                client_entity.insert(Replicated);
+            }
+""", ""))
+mut("C03", "mapping_without_marker", "pre-spawned entities are mapped without the marker", ["apply_entity_mapping/insert"],
+    ("src/client.rs", "        entity.insert(Replicated);\n        params.entity_map.insert(server_entity, client_entity);", "        let _ = &mut entity;\n        params.entity_map.insert(server_entity, client_entity);"))
+mut("C03", "flag_order_swapped", "REMOVALS gets a lower bit than DESPAWNS (sections reorder)", ["strictly-increasing-bits", "arm-"],
+    ("src/shared/replication/update_message_flags.rs", "        const DESPAWNS = 0b00000010;", "        const DESPAWNS = 0b00000100;"),
+    ("src/shared/replication/update_message_flags.rs", "        const REMOVALS = 0b00000100;", "        const REMOVALS = 0b00000010;"))
+mut("C03", "flags_map_removals_to_despawns", "removal-only ticks raise the DESPAWNS flag", ["buffer-to-flag"],
+    (UPDS, "        if !self.removals.is_empty() {\n            flags |= UpdateMessageFlags::REMOVALS;", "        if !self.removals.is_empty() {\n            flags |= UpdateMessageFlags::DESPAWNS;"))
+mut("C03", "reader_arms_swapped", "reader applies removals with the despawn handler and vice versa", ["apply_update_message/arm-"],
+    ("src/client.rs", """            UpdateMessageFlags::DESPAWNS => {
+                let len = apply_array(array_kind, message, |message| {
+                    apply_despawn(world, params, message, message_tick)
+                })""", """            UpdateMessageFlags::REMOVALS => {
+                let len = apply_array(array_kind, message, |message| {
+                    apply_despawn(world, params, message, message_tick)
+                })"""),
+    ("src/client.rs", """            UpdateMessageFlags::REMOVALS => {
+                let len = apply_array(array_kind, message, |message| {
+                    apply_removals(world, params, message, message_tick)
+                })""", """            UpdateMessageFlags::DESPAWNS => {
+                let len = apply_array(array_kind, message, |message| {
+                    apply_removals(world, params, message, message_tick)
+                })"""))
+mut("C03", "writer_despawn_arm_writes_removals_len", "despawn section header carries the removals count", ["Updates::send/bb"],
+    (UPDS, "                        postcard_utils::to_extend_mut(&self.despawns_len, &mut message)?;", "                        postcard_utils::to_extend_mut(&self.removals.len(), &mut message)?;"))
+mut("C03", "second_update_sender", "mappings are sent as their own update message", ["update-channel/single-writer", "classified"],
+    ("src/server.rs", """        trace!("writing mappings for client `{client_entity}`");
+        let len = entity_map.len();""", """        trace!("writing mappings for client `{client_entity}`");
+        let len = entity_map.len();
+        if len > 10_000 {
+            return Err("too many mappings".into());
+        }"""),
+    ("src/server.rs", """fn handle_disconnects(
+    trigger: Trigger<OnRemove, ConnectedClient>,
+    mut server: ResMut<RepliconServer>,
+) {
+    debug!("client `{}` disconnected", trigger.target());""", """fn handle_disconnects(
+    trigger: Trigger<OnRemove, ConnectedClient>,
+    mut server: ResMut<RepliconServer>,
+) {
+    server.send(trigger.target(), crate::shared::backend::channels::ServerChannel::Updates, Vec::new());
+    debug!("client `{}` disconnected", trigger.target());"""))
+mut("C03", "update_tick_from_flags_position", "update tick stored only when the message has changes", ["tick-stored-unconditionally"],
+    ("src/client.rs", "    world.resource_mut::<ServerUpdateTick>().0 = message_tick;\n", "    if flags.contains(UpdateMessageFlags::CHANGES) {\n        world.resource_mut::<ServerUpdateTick>().0 = message_tick;\n    }\n"))
+mut("C03", "reverse_map_not_updated", "VacantEntityEntry::insert forgets the reverse direction", ["VacantEntityEntry", "mirrored"],
+    ("src/shared/server_entity_map.rs", "        self.main_entry.insert(value);\n        self.reverse_map.insert(value, key);", "        self.main_entry.insert(value);\n        let _ = key;"))
+mut("C03", "map_insert_not_swapped", "ServerEntityMap::insert stores the reverse direction unswapped", ["key-value-swapped"],
+    ("src/shared/server_entity_map.rs", "        self.client_to_server.insert(client_entity, server_entity);", "        self.client_to_server.insert(server_entity, client_entity);"))
+mut("C03", "despawn_keeps_mapping", "apply_despawn despawns without removing the mapping", ["removes-mapping-it-despawns"],
+    ("src/client.rs", """    if let Some(client_entity) = params
+        .entity_map
+        .server_entry(server_entity)
+        .remove()
+        .and_then(|entity| world.get_entity_mut(entity).ok())""", """    if let Some(client_entity) = params
+        .entity_map
+        .server_entry(server_entity)
+        .get()
+        .and_then(|entity| world.get_entity_mut(entity).ok())"""))
+mut("C03", "no_record_for_empty_new_entity", "new entities without components get no change record", ["record-for-every-new-entity"],
+    ("src/server.rs", "                if new_entity && !updates.changed_entity_added() {", "                if new_entity && !updates.changed_entity_added() && replicated_archetype.components.len() > 1000 {"))
